@@ -48,6 +48,7 @@ type Exec struct {
 	topFrame   *frame
 	curCallFrame *frame
 	curCallArg0  ssa.Value
+	curStoreVal  *Val
 	defaultSpecs map[string]*FuncSpec
 	entryFacts bool
 	witnesses  map[string]Val
